@@ -704,6 +704,102 @@ Lemma c18_nonvacuous :
 Proof. vm_compute. repeat split. Qed.
 
 (* ------------------------------------------------------------------------------------------ *)
+(** * outgoing bridge calls coming back *)
+
+Lemma result_success S refund del consume id s :
+  result_tx S refund del consume id true true s = (del id (consume s), true).
+Proof. reflexivity. Qed.
+
+Lemma result_failure_refunds S (refund : Z -> S -> option S) del consume id s s1 :
+  refund id (consume s) = Some s1 -> result_tx S refund del consume id true false s = (del id s1, true).
+Proof. intros H. unfold result_tx, result_handler. cbn. rewrite H. reflexivity. Qed.
+
+(* a refund that cannot be paid, or an unknown nonce: the handler panics, the transaction keeps nothing, the claim stays pending *)
+Lemma result_panic_keeps_nothing S (refund : Z -> S -> option S) del consume id found s :
+  found = false \/ refund id (consume s) = None ->
+  result_tx S refund del consume id found false s = (s, false).
+Proof.
+  intros [->|H]; unfold result_tx, result_handler; cbn; [reflexivity|]. destruct found; cbn; [rewrite H|]; reflexivity.
+Qed.
+
+Lemma result_outcomes S (refund : Z -> S -> option S) del consume id s :
+  result_tx S refund del consume id true true s = (del id (consume s), true) /\
+  (forall s1, refund id (consume s) = Some s1 -> result_tx S refund del consume id true false s = (del id s1, true)) /\
+  (forall found, found = false \/ refund id (consume s) = None -> result_tx S refund del consume id found false s = (s, false)).
+Proof.
+  split; [apply result_success|]. split; [intros; apply result_failure_refunds; assumption|intros; apply result_panic_keeps_nothing; assumption].
+Qed.
+
+Lemma cleanup_calls_panics S (refund : Z -> S -> option S) del ids1 i ids2 : forall s s1,
+  cleanup_calls S refund del ids1 s = Some s1 -> refund i s1 = None ->
+  cleanup_calls S refund del (ids1 ++ i :: ids2) s = None.
+Proof.
+  induction ids1 as [|j r IH]; intros s s1 H Hp; cbn in *.
+  - inversion H; subst. rewrite Hp. reflexivity.
+  - destruct (refund j s); [|discriminate]. eapply IH; eauto.
+Qed.
+
+(* with a clean-up that cannot panic the vote transaction is claim_tx *)
+Lemma claim_tx_p_no_timeouts S refund del mark hp record finish pre :
+  claim_tx_p S refund del mark hp record finish (fun _ => []) pre =
+  claim_tx S mark (fun s => s) hp record finish pre.
+Proof.
+  unfold claim_tx_p, claim_tx. destruct (hp (mark (record pre))) as [[x|x]|]; reflexivity.
+Qed.
+
+(* FINDING C18-2, the statement: one timed-out call whose refund cannot be paid (at ANY position among the timed-out
+   calls) fails the vote transaction — whatever the handler did, tolerated failure included: the event is NOT marked
+   observed, nothing of the transaction stays *)
+Lemma claim_tx_p_unpayable_refund S (refund : Z -> S -> option S) del mark hp record finish timed_out pre r ids1 i ids2 s1 :
+  hp (mark (record pre)) = Some r ->
+  (let s2 := match r with Ok x => commit (mark (record pre)) x | Err x => discard (mark (record pre)) x end in
+   timed_out s2 = ids1 ++ i :: ids2 /\ cleanup_calls S refund del ids1 s2 = Some s1 /\ refund i s1 = None) ->
+  claim_tx_p S refund del mark hp record finish timed_out pre = (pre, 2).
+Proof.
+  intros Hh H. unfold claim_tx_p. rewrite Hh. destruct r as [x|x]; cbn in H |- *; destruct H as (Ht & Hc & Hp);
+    rewrite Ht, (cleanup_calls_panics S refund del ids1 i ids2 _ _ Hc Hp); reflexivity.
+Qed.
+
+(* … so "a failed handler leaves the event marked observed" is FALSE of the vote transaction as it is: witness on a counter
+   state (handler fails after a write; one timed-out call, unpayable) *)
+Lemma claim_tx_p_refuted :
+  exists (refund : Z -> Z -> option Z) del mark hp record finish timed_out pre,
+    (exists x, hp (mark (record pre)) = Some (Err x)) /\
+    claim_tx_p Z refund del mark hp record finish timed_out pre <> (finish (mark (record pre)), 1) /\
+    claim_tx_p Z refund del mark hp record finish timed_out pre = (pre, 2).
+Proof.
+  exists (fun _ _ => None), (fun _ s => s), (fun s => s + 10), (fun s => Some (Err (s + 1))), (fun s => s + 100),
+         (fun s => s + 1000), (fun _ => [7]), 0.
+  split; [eexists; reflexivity|]. split; [vm_compute; discriminate|reflexivity].
+Qed.
+
+(* guarded: if every timed-out call can be refunded the failed handler's outcome is the designated one plus the clean-up *)
+Lemma claim_tx_p_payable S (refund : Z -> S -> option S) del mark hp record finish timed_out pre x s3 :
+  hp (mark (record pre)) = Some (Err x) ->
+  cleanup_calls S refund del (timed_out (mark (record pre))) (mark (record pre)) = Some s3 ->
+  claim_tx_p S refund del mark hp record finish timed_out pre = (finish s3, 1).
+Proof. intros Hh Hc. unfold claim_tx_p, discard. rewrite Hh, Hc. reflexivity. Qed.
+
+(* ------------------------------------------------------------------------------------------ *)
+(** * histories: whatever mix of failing and succeeding crossings, no partial effect ever accumulates *)
+
+Lemma cross_designated {S} (x : crossing S) s : cross x s = designated x s.
+Proof.
+  destruct x as [h m c|ms p st|po tr hk tao wa|f]; cbn.
+  - unfold try_attestation, process_attestation, att_designated, branch, commit, discard. destruct (h (m s)); reflexivity.
+  - unfold gov_execute, gov_designated, branch, commit, discard. destruct (run_steps ms (p s)); reflexivity.
+  - unfold core_recv, mw_on_recv, recv_designated, branch, commit, discard. destruct po; cbn; [|reflexivity].
+    destruct (tr (tao s)) as [c1|c1]; cbn; [|reflexivity]. destruct (hk c1); reflexivity.
+  - unfold tx, branch, commit, discard. destruct (f s); reflexivity.
+Qed.
+
+Lemma history_designated {S} (xs : list (crossing S)) : forall s,
+  fold_left (fun st x => cross x st) xs s = fold_left (fun st x => designated x st) xs s.
+Proof.
+  induction xs as [|x r IH]; intros s; [reflexivity|]. cbn [fold_left]. rewrite cross_designated. apply IH.
+Qed.
+
+(* ------------------------------------------------------------------------------------------ *)
 (** * the sources still have the shape the models were transcribed from (gen/Gen_C18.v is regenerated on every run) *)
 Lemma source_shapes : source_shapes_ok = true.
 Proof. vm_compute. reflexivity. Qed.
